@@ -127,8 +127,8 @@ def decodeBits (threshold : Nat) : List Nat → List Bool
   | a :: _ :: rest => (decide (a > threshold)) :: decodeBits threshold rest
   | _ => []
 
-def bitsToByte (bits : List Bool) : Byte :=
-  bits.foldl (fun acc b => (acc <<< 1) ||| (if b then 1 else 0)) 0
+def bitsToByte (bits : List Bool) : BitVec 8 :=
+  bits.foldl (fun (acc : BitVec 8) b => (acc <<< (1 : Nat)) ||| (BitVec.ofBool b).setWidth 8) 0#8
 
 def decodeBytes (threshold : Nat) : Nat → List Nat → List Byte
   | 0, _ => []
@@ -138,19 +138,22 @@ def decodeBytes (threshold : Nat) : Nat → List Nat → List Byte
 
 /-! ## C12: the cassette deck -/
 
-/-- A deck: how many pulse boundaries of `nominal` have been passed since the start of the tape
-(`0` = nothing played yet), T-states left of the current pulse, the EAR level, motor on/off. -/
+/-- A deck: the pulse list of the inserted tape, the pulses not yet started, how many have been
+started since the beginning of the tape (`0` = nothing played yet), T-states left of the current
+pulse, the EAR level, motor on/off. -/
 structure Deck where
-  pulses : List Nat        -- `nominal` of the inserted tape
-  cursor : Nat := 0
+  tape : List Nat          -- `nominal` of the inserted tape
+  ahead : List Nat         -- pulses still to come
+  started : Nat := 0
   remaining : Nat := 0
   level : Bool := false
   playing : Bool := false
   deriving DecidableEq, Repr
 
-def Deck.init (blocks : List (List Byte)) : Deck := { pulses := nominal blocks }
+def Deck.init (blocks : List (List Byte)) : Deck := { tape := nominal blocks, ahead := nominal blocks }
 
-def Deck.rewind (d : Deck) : Deck := { d with cursor := 0, remaining := 0, level := false }
+def Deck.rewind (d : Deck) : Deck :=
+  { d with ahead := d.tape, started := 0, remaining := 0, level := false }
 
 /-- `advance n` while playing: the current pulse runs down (in steps, as the machine samples the
 tape once per bus wait); when it has run out the next call starts the next pulse — its level is
@@ -159,9 +162,10 @@ def Deck.advance (d : Deck) (n : Nat) : Deck :=
   if !d.playing then d
   else if d.remaining > 0 then { d with remaining := if n > d.remaining then 0 else d.remaining - n }
   else
-    match d.pulses[d.cursor]? with
-    | some len => { d with cursor := d.cursor + 1, remaining := len, level := levelOf d.cursor }
-    | none => { d.rewind with playing := false }
+    match d.ahead with
+    | len :: rest =>
+      { d with ahead := rest, started := d.started + 1, remaining := len, level := levelOf d.started }
+    | [] => { d.rewind with playing := false }
 
 def Deck.cmd (d : Deck) : DeckCmd → Deck
   | .play => { d with playing := true }
